@@ -254,6 +254,27 @@ def getReferable : Tree → List Str → Except Err Path
         | none => .error .keyError
         | some c => (getReferable c rest).map (k :: ·)
 
+/-- the two argument forms of `get_referable(id_short)`: a bare `NameType` string, or an iterable of segments
+    (`if isinstance(id_short, NameType): id_short = [id_short]`) -/
+inductive PathArg where
+  | single (s : Str)
+  | many (ss : List Str)
+
+def getReferableArg (t : Tree) : PathArg → Except Err Path
+  | .single s => getReferable t [s]
+  | .many ss => getReferable t ss
+
+/-- following a path from `t` one segment at a time, each step a call with the bare-string form
+    (`obj = root; for seg in path: obj = obj.get_referable(seg)`) -/
+def followStepwise : Tree → List Str → Except Err Path
+  | _, [] => .ok []
+  | t, s :: rest =>
+    match getReferableArg t (.single s) with
+    | .error e => .error e
+    | .ok p => match sub t p with
+      | none => .error .noNode
+      | some c => (followStepwise c rest).map (p ++ ·)
+
 /-! ### providers -/
 
 /-- a DictObjectStore: (uid of the object, the identifiable); looked up by id -/
